@@ -20,7 +20,9 @@ Sigma4 == {cA, cSC, NL, cSP}
 
 Seqs(S, n) == UNION {[1..k -> S] : k \in 0..n}
 
-T3 == Seqs(Sigma4, 3)
+T3 ==
+  IF Scope \notin {"c01","c02"} THEN {} ELSE
+ Seqs(Sigma4, 3)
 T2 == Seqs(Sigma4, 2)
 (* a slim set of texts for the insides of composites: empty, one char,      *)
 (* trailing / leading / inner line break, statement border                  *)
@@ -96,22 +98,27 @@ Repls2(n) ==
 -----------------------------------------------------------------------------
 (* tree families                                                            *)
 LeavesRich ==
+  IF Scope \notin {"c01","c02"} THEN {} ELSE
   {Raw("str", t) : t \in T3} \cup {Orig(t) : t \in T3} \cup SmsLeaves(T2, 2)
 
 LeavesSlim ==
+  IF Scope \notin {"c01","c02","c07"} THEN {} ELSE
   {Raw("str", t) : t \in TSlim} \cup {Orig(t) : t \in TSlim}
   \cup SmsLeaves({<<cA, NL, cA>>, <<cA, cA>>}, 1)
 
 TextLen(t) == Len(t.b)
 
-Pairs == {CC(<<a, b>>) : a \in LeavesSlim, b \in LeavesSlim}
+Pairs ==  IF Scope \notin {"c01","c02","c07"} THEN {} ELSE
+ {CC(<<a, b>>) : a \in LeavesSlim, b \in LeavesSlim}
 
 ReplOverLeaf1 ==
+  IF Scope \notin {"c01","c02"} THEN {} ELSE
   UNION {{Replace(x, r) : r \in Repls1Ok(TextLen(x))} :
            x \in {Raw("str", t) : t \in T3} \cup {Orig(t) : t \in T3}
                  \cup SmsLeaves({<<cA, NL, cA>>, <<cA, cA, cA>>}, 2)}
 
 ReplOverLeaf2 ==
+  IF Scope \notin {"c01","c02","c07"} THEN {} ELSE
   UNION {{Replace(x, r) : r \in Repls2(TextLen(x))} :
            x \in {Orig(t) : t \in {<<cA, NL, cA>>, <<cA, cSC, cA>>, <<NL, cA>>, <<cA, NL>>}}
                  \cup {Raw("str", <<cA, NL, cA>>)}}
@@ -122,10 +129,12 @@ SlimPairs ==
   IN {CC(<<a, b>>) : a \in L, b \in L}
 
 ReplOverPair ==
+  IF Scope \notin {"c01","c02"} THEN {} ELSE
   UNION {{Replace(x, r) : r \in Repls1Ok(TextLen(x.ch[1]) + TextLen(x.ch[2]))} :
            x \in SlimPairs}
 
 Wrapped ==
+  IF Scope \notin {"c01","c02","c07"} THEN {} ELSE
   LET X == SlimPairs \cup {Replace(Orig(<<cA, NL, cA>>), <<Repl(1, 2, <<cX>>)>>)}
                \cup {Orig(t) : t \in TSlim}
   IN {Cached(x) : x \in X} \cup {Box(x) : x \in X}
@@ -134,6 +143,7 @@ Wrapped ==
      \cup {Replace(Cached(x), <<Repl(0, 1, <<cX>>)>>) : x \in X}
 
 TreesSmall ==
+  IF Scope \notin {"c01","c02"} THEN {} ELSE
   LeavesRich \cup Pairs \cup ReplOverLeaf1 \cup ReplOverLeaf2
   \cup ReplOverPair \cup Wrapped
 
@@ -171,6 +181,7 @@ ViewObs(n) ==
 Prog(steps) == [steps |-> steps]
 
 ViewTrees ==
+  IF Scope \notin {"c07"} THEN {} ELSE
   BinLeaves
   \cup {CC(<<a, b>>) : a \in BinLeaves, b \in {Raw("str", <<cA>>), Orig(<<cA, NL>>)}}
   \cup {CC(<<b, a>>) : a \in BinLeaves, b \in {Raw("rawstr", <<cA>>)}}
@@ -212,18 +223,106 @@ HistInner == Raw("str", <<cA, 98, 99>>)
 HistStart == <<Build(Replace(HistInner, <<>>)), [op |-> "clone", dst |-> 1, src |-> 0]>>
 
 Hist2 ==
+  IF Scope \notin {"c05"} THEN {} ELSE
   {Prog(HistStart \o <<m1>> \o o \o <<m2>> \o FinalObs) :
      m1 \in Muts(1), o \in Between, m2 \in Muts(2)}
 Hist3 ==
+  IF Scope \notin {"c05"} THEN {} ELSE
   {Prog(HistStart \o <<m1>> \o o1 \o <<m2>> \o o2 \o <<m3>> \o FinalObs) :
      m1 \in MutsSlim(1), o1 \in BetweenSlim, m2 \in MutsSlim(2),
      o2 \in BetweenSlim, m3 \in MutsSlim(3)}
+
+-----------------------------------------------------------------------------
+(* composition laws (C13) and child attribution in concatenations (C06)     *)
+SmsWith(t, segs, sources, contents, names, root) ==
+  [k |-> "sms", b |-> t, name |-> GenName,
+   map |-> [m |-> EncodeSegs(segs), sources |-> sources, contents |-> contents,
+            names |-> names, root |-> root, file |-> <<>>, dbg |-> <<>>],
+   inner |-> <<>>, osrc |-> <<>>, remove |-> FALSE]
+
+SmsA == SmsWith(<<cA, cA, NL, cA>>,
+                <<Seg(1, 0, <<0, 1, 0, 0>>), Seg(2, 0, <<1, 1, 2, -1>>)>>,
+                <<FileA, FileB>>, <<ContentA, ContentB>>, <<Name0>>, <<>>)
+SmsB == SmsWith(<<cA, cSP, cA>>,
+                <<Seg(1, 0, <<-1, 0, 0, -1>>), Seg(1, 2, <<0, 2, 1, 1>>)>>,
+                <<FileA>>, <<ContentA>>, <<Name0, Name1>>, <<>>)
+SmsC == SmsWith(<<cA, cA>>,
+                <<Seg(1, 0, <<1, 1, 0, -1>>), Seg(1, 1, <<0, 1, 1, 0>>)>>,
+                <<FileB, FileA>>, <<>>, <<Name1>>, <<>>)
+SmsD == SmsWith(<<cA, NL>>,
+                <<Seg(1, 0, <<0, 3, 0, -1>>)>>,
+                <<FileA>>, <<ContentA>>, <<>>, <<<<114, 47>>>>)
+
+LawXs ==
+  {Orig(<<cA>>), Orig(<<cA, NL>>), Orig(<<cA, NL, cA>>), Raw("str", <<98>>),
+   Raw("str", <<>>), Raw("str", <<98, NL>>), SmsA, SmsB}
+
+ObsAll(r) ==
+  <<[op |-> "source", r |-> r], [op |-> "map", r |-> r, columns |-> TRUE],
+    [op |-> "map", r |-> r, columns |-> FALSE]>>
+
+SameLaw(lhs, rhs) ==
+  Prog(<<[op |-> "build", dst |-> 0, tree |-> lhs]>> \o ObsAll(0)
+       \o <<[op |-> "build", dst |-> 1, tree |-> rhs]>> \o ObsAll(1)
+       \o <<[op |-> "law", law |-> "same", a |-> 0, b |-> 1]>>)
+
+Typed(ch) == [k |-> "concat", mode |-> "typed", ch |-> ch]
+WithAdds(ch, adds) == [k |-> "concat", mode |-> "boxed", ch |-> ch, adds |-> adds]
+EmptyRepl == [s |-> 1, e |-> 1, c |-> <<>>, n |-> <<>>, enf |-> 1, api |-> "insert"]
+
+Regroupings(a, b, c) ==
+  LET flat == CC(<<a, b, c>>)
+  IN {SameLaw(flat, Typed(<<CC(<<a, b>>), CC(<<c>>)>>)),
+      SameLaw(flat, Typed(<<CC(<<a>>), CC(<<b, c>>)>>)),
+      SameLaw(flat, CC(<<CC(<<a, b>>), c>>)),
+      SameLaw(flat, CC(<<a, CC(<<b, c>>)>>)),
+      SameLaw(flat, CC(<<Box(CC(<<a, b>>)), c>>)),
+      SameLaw(flat, WithAdds(<<a>>, <<b, c>>)),
+      SameLaw(flat, WithAdds(<<a>>, <<CC(<<b, c>>)>>)),
+      SameLaw(flat, WithAdds(<<>>, <<a, b, c>>))}
+
+Neutral(x) ==
+  {SameLaw(x, CC(<<x>>)), SameLaw(x, CC(<<x, Raw("str", <<>>)>>)),
+   SameLaw(x, CC(<<Raw("str", <<>>), x>>)),
+   SameLaw(x, CC(<<Raw("rawbuf", <<>>), x, Orig(<<>>)>>)),
+   SameLaw(x, Replace(x, <<>>)), SameLaw(x, Replace(x, <<EmptyRepl>>)),
+   SameLaw(x, Replace(x, <<EmptyRepl, [EmptyRepl EXCEPT !.s = 0, !.e = 0]>>)),
+   SameLaw(x, Cached(x)), SameLaw(x, Box(x)), SameLaw(x, Box(Box(x))),
+   SameLaw(x, Cached(Box(x)))}
+
+LawScope ==
+  IF Scope \notin {"c13"} THEN {} ELSE
+  UNION {Regroupings(a, b, c) : a \in LawXs, b \in LawXs, c \in LawXs}
+  \cup UNION {Neutral(x) :
+               x \in LawXs \cup SlimPairs \cup {SmsC, SmsD}
+                     \cup {Replace(Orig(<<cA, NL, cA>>), <<Repl(1, 2, <<cX>>)>>),
+                           CC(<<Orig(<<cA>>), Raw("str", <<98>>), Orig(<<cA, NL>>)>>)}}
+
+C06Ys ==
+  {Orig(<<cA>>), Orig(<<cA, NL>>), Raw("str", <<98, NL>>), Raw("str", <<98>>),
+   SmsA, SmsB, SmsC, SmsD}
+
+ConcatChildrenProg(a, b, c) ==
+  Prog(<<[op |-> "build", dst |-> 1, tree |-> a]>> \o ObsAll(1)
+       \o <<[op |-> "build", dst |-> 2, tree |-> b]>> \o ObsAll(2)
+       \o <<[op |-> "build", dst |-> 3, tree |-> c]>> \o ObsAll(3)
+       \o <<[op |-> "build", dst |-> 0,
+             tree |-> CC(<<[k |-> "reg", r |-> 1], [k |-> "reg", r |-> 2],
+                          [k |-> "reg", r |-> 3]>>)]>>
+       \o ObsAll(0)
+       \o <<[op |-> "law", law |-> "concat_children", r |-> 0,
+             children |-> <<1, 2, 3>>]>>)
+
+C06Scope ==  IF Scope \notin {"c06"} THEN {} ELSE
+ {ConcatChildrenProg(a, b, c) : a \in C06Ys, b \in C06Ys, c \in C06Ys}
 
 (* size of buffer() is not known to the generator; writers are placed at    *)
 (* every budget up to a bound that covers these small trees                 *)
 ProgSet ==
   CASE Scope \in {"c01", "c02"} -> {Prog(<<Build(t)>> \o StreamObs) : t \in TreesSmall}
     [] Scope = "c05" -> Hist2 \cup Hist3
+    [] Scope = "c13" -> LawScope
+    [] Scope = "c06" -> C06Scope
     [] Scope = "c07" -> {Prog(<<Build(t)>> \o ViewObs(9)) : t \in ViewTrees}
     [] OTHER -> {}
 
